@@ -219,7 +219,7 @@ Proof.
                 from_end_wrap (c_from_end c) (rem_n (s_match c) (s_limit (c_count c)))
                   (slice (s_start c) (s_end c (elems (c_seq c))) (elems (c_seq c))) ++
                 skipn (s_end c (elems (c_seq c))) (elems (c_seq c)))) as Hm.
-  { unfold m_delete. rewrite matchers_agree.
+  { unfold m_delete. rewrite matchers_agree by (destruct (c_fn c); try discriminate Hf; reflexivity).
     assert (forall s, elems s = elems (c_seq c) -> (length (elems s) <= go_len s)%nat ->
             (match c_end c with Some n => n <= length (elems s) | None => True end)%nat ->
             RSeq (m_delete_list (s_match c) (mkSfv (s_start c) (c_end c) (match c_count c with CNum z => Some z | _ => None end) (c_from_end c)) (go_len s) (elems s)) =
